@@ -295,8 +295,12 @@ async def _run_acts(ctx, ev, sp, prog, att, v, uid, bid):
                     extra["result"] = {"v": v, "waited": None if w is None else w.get("v", None), "timed_out": local.get("timed_out", False)}
                 elif res == "state":
                     extra["result"] = {"v": v, "state": (await ctx.store.get_state()).to_dict() if hasattr(await ctx.store.get_state(), "to_dict") else None}
+                elif res == "const":
+                    extra["result"] = {"done": True, "in": str(v)}
                 else:
                     extra["result"] = res
+            if act.get("v_const") is not None:
+                cv = act["v_const"]  # order-independent lineage (deterministic result under any schedule)
             e = mk_event(t, cv, extra)
             r.add("emit", how="return", step=step, bid=bid, att=att, uid=e.get("uid"), v=cv, type=t, target=None, parent=uid)
             return e
